@@ -448,3 +448,37 @@ def rule_AT4(ctx, tier):
             rr.fail("reorg-scan-before-purge", "`Responder::block_disconnected` collects the trackers confirmed in the disconnected block before the block leaves the index: a concurrent `handle_breach` can find the penalty in that block and store `ConfirmedIn(h)` after the scan — never flagged as reorged, never rebroadcast, completed and refunded 100 blocks later", where=b.line_of(sc))
     # the Watcher's side: its cache entry for the block goes away in block_disconnected too (TH checks the driver discipline)
     return rr
+
+
+def rule_AT5(ctx, tier):
+    rr = RuleResult("AT5", "the purge of outdated users is one critical section of the users lock: selecting them, removing them from memory and deleting their rows")
+    P = ctx.prog
+    b = P.require("<teos::gatekeeper::Gatekeeper as lightning::chain::Listen>::filtered_block_connected")
+    bl = ctx.locks.locks(b.id)
+    users = C["users"]
+    own = [bb for (bid, bb, c, kind, held) in ctx.locks.acquire_sites if bid == b.id and c == users]
+    may = ctx.locks.may_acquire()
+    via = [(bb, call_target(t)) for bb, t in b.calls() if any(n in P.bodies and users in (may.get(n) or ()) for n in call_names(t))]
+    from .rulekit import sites_containing, arg_origin
+    from . import origin as og
+    removes = [x for x in sites_containing(b, "HashMap", "::remove") if "f:registered_users" in og.show(arg_origin(ctx, b, x, 0))]
+    dbdel = [bb for bb, t in b.calls() if (call_target(t) or "").endswith("DBM::batch_remove_users")]
+    if not removes or not dbdel:
+        rr.anchor_missing("registered_users.remove / DBM::batch_remove_users in Gatekeeper::filtered_block_connected")
+        return rr
+    n = len(own) + len(via)
+    if n == 1:
+        rr.ok("purge: the users lock is taken once", sample={"rule": "AT5", "acquisitions": 1})
+    else:
+        rr.fail("purge:sections=%d" % n, "`Gatekeeper::filtered_block_connected` takes the users lock %d times (%s): a renewal landing after the outdated users were selected is acknowledged and then purged all the same; a registration landing after they left the map but before their rows are deleted hits the still existing row (INSERT fails -> unwrap panics under the users guard)" % (
+            n, ", ".join(["own lock()"] * len(own) + [shortfn_(c) for _, c in via])), where=b.span)
+    for x in removes + dbdel:
+        if users in bl.classes_at_term(x):
+            rr.ok("purge: %s under the users guard" % (call_target(b.term(x)) or "?").split("::")[-1])
+        else:
+            rr.fail("purge:%s-outside" % (call_target(b.term(x)) or "?").split("::")[-1], "`%s` runs in `Gatekeeper::filtered_block_connected` without the users guard that selected the outdated users" % (call_target(b.term(x)) or "?"), where=b.line_of(x))
+    return rr
+
+
+def shortfn_(x):
+    return (x or "?").split("::", 1)[-1]
